@@ -268,7 +268,7 @@ class _Inliner:
                         blocked = True
         return found, blocked
 
-    def _expand(self, s, call, name, info):
+    def _expand(self, s, call, name, info, caller=None):
         key, mod, cls, fn, _ = info
         self.counter += 1
         tag = f'_inl{self.counter}_'
@@ -318,6 +318,8 @@ class _Inliner:
                 mapping[p] = a
             elif reuse is not None and isinstance(a, ast.Name) and a.id == reuse:
                 mapping[p] = a
+            elif isinstance(a, ast.Name) and caller is not None and _dead_after(caller, s, a.id):
+                mapping[p] = a            # the caller never looks at this variable again: the helper may work on it directly
             else:
                 tmp = tag + p
                 prefix.append(ast.Assign(targets=[ast.Name(id=tmp, ctx=ast.Store())], value=a))
@@ -359,7 +361,7 @@ class _Inliner:
         stmts = prefix + _conv(body, make)
         return stmts, ret
 
-    def _process_list(self, stmts, cands):
+    def _process_list(self, stmts, cands, caller=None):
         changed = False
         out = []
         for s in stmts:
@@ -375,13 +377,13 @@ class _Inliner:
             for fld in ('body', 'orelse', 'finalbody'):
                 sub = getattr(s, fld, None)
                 if isinstance(sub, list) and sub and isinstance(sub[0], ast.stmt) and not isinstance(s, (ast.FunctionDef, ast.ClassDef, ast.AsyncFunctionDef)):
-                    new, ch = self._process_list(sub, cands)
+                    new, ch = self._process_list(sub, cands, caller)
                     if ch:
                         setattr(s, fld, new)
                         changed = True
             if isinstance(s, ast.Try):
                 for h in s.handlers:
-                    new, ch = self._process_list(h.body, cands)
+                    new, ch = self._process_list(h.body, cands, caller)
                     if ch:
                         h.body = new
                         changed = True
@@ -395,7 +397,7 @@ class _Inliner:
                 if not found:
                     break
                 call, name = found
-                res = self._expand(cur[-1], call, name, cands[name])
+                res = self._expand(cur[-1], call, name, cands[name], caller)
                 if res is None:
                     raise _Blocked()
                 new_stmts, ret = res
@@ -433,7 +435,7 @@ class _Inliner:
                             cands.pop(nm, None)
         touched = {}
         # helpers may call helpers: integrate one at a time, innermost first by repeating until nothing changes
-        for _round in range(6):
+        for _round in range(16):
             progress = False
             for name in sorted(cands):
                 info = cands[name]
@@ -447,7 +449,7 @@ class _Inliner:
                         if _uses_super(info[3]) and (cls != info[2] or mod != info[1]) and any(
                                 isinstance(x, ast.Call) and self._call_kind(x, name, info) is not None for x in ast.walk(fn)):
                             raise _Blocked()       # zero-argument super() means something else in another class
-                        new, ch = self._process_list(fn.body, one)
+                        new, ch = self._process_list(fn.body, one, fn)
                         if ch:
                             fn.body = new
                             any_change = True
@@ -472,6 +474,13 @@ class _Inliner:
                         info[4].remove(info[3])
                         self.done.append(info[0])
                         cands.pop(name)
+                        # consistent line numbers for the next helper (and for the rules): re-parse what was rewritten
+                        for m2 in list(self.mods):
+                            if m2 != 'luts' and (m2 in touched or m2 == info[1]):
+                                ast.fix_missing_locations(self.mods[m2])
+                                self.mods[m2] = ast.parse(ast.unparse(self.mods[m2]))
+                        remaining = set(cands)
+                        cands = {k: v for k, v in self.candidates().items() if k in remaining}
                         progress = True
                         break
                 except _Blocked:
@@ -488,6 +497,23 @@ class _Inliner:
 
 class _Blocked(Exception):
     pass
+
+
+def _dead_after(caller, s, name):
+    """No read of ``name`` in ``caller`` after statement ``s`` (in source order), and s is not inside a loop."""
+    line = getattr(s, 'end_lineno', None) or getattr(s, 'lineno', None)
+    if line is None:
+        return False
+    for x in ast.walk(caller):
+        if isinstance(x, (ast.For, ast.While)) and any(s is y for y in ast.walk(x)):
+            return False
+    for x in ast.walk(caller):
+        if isinstance(x, ast.Name) and x.id == name and isinstance(x.ctx, ast.Load) and getattr(x, 'lineno', 0) > line:
+            return False
+        if isinstance(x, (ast.FunctionDef, ast.Lambda)) and x is not caller and any(isinstance(y, ast.Name) and y.id == name for y in ast.walk(x)):
+            return False
+    # reads on the same line but outside the statement (should not happen) are ignored
+    return True
 
 
 def _replace_node(root, old, new):
